@@ -67,6 +67,8 @@ fn main() {
         std::process::exit(2);
     };
     if ship_child {
+        // verbose logging on: every `trace!` / `debug!` call site of calloop is enabled in this process
+        vh::ship::install_all_levels_subscriber();
         // C20's second build profile (no overflow checks, no debug assertions); result goes to the parent on stdout
         // (strict only for the replay of one case: the search tolerates the open known findings like its parent does)
         let ctx = CheckCtx::new(&prop, tier, seed, vh::ship::child_replay_request().is_some());
